@@ -175,6 +175,11 @@ TEMPLATES = [
     ("bool => bool", "NAME x <--> (NAME x --> x)", 'circular'),
     ("bool", "NAME <--> (!x::'a. !y. x = y)", 'extra type variable'),
     ("'a => bool", "NAME x <--> (!y::'b. !z. y = z)", 'extra type variable'),
+    ("bool", "NAME <--> (!x::?'a. !y::?'a. x = y)", 'extra schematic type variable'),
+    ("'a => bool", "NAME x <--> (!y::?'b. !z::?'b. y = z)", 'extra schematic type variable'),
+    ("'a => bool", "NAME x <--> (!y::?'a. !z::?'a. y = z)", 'extra schematic type variable with the name of a type variable of the constant'),
+    ("?'a => bool", "NAME x <--> (!y::?'a. y = x)", 'good: schematic type variable of the constant'),
+    ("?'a => bool", "NAME x <--> (!y::'a. !z::'a. y = z)", 'extra type variable with the name of a schematic one of the constant'),
     ("bool => bool", "NAME true <--> false", 'constant argument'),
     ("bool => bool => bool", "NAME x x <--> x", 'repeated argument'),
     ("('a => 'a) => 'a => 'a", "NAME f x = f (f x)", 'good polymorphic'),
